@@ -8,7 +8,7 @@ from ..gen_lean import Def
 from ..runner import Corr, Failure
 from .c03 import KINDS, _mk, _bern_exact_c, _close
 
-LEAN_MODULES = ['SvgVerif.Props.C09']
+LEAN_MODULES = ['SvgVerif.Props.C09', 'SvgVerif.Props.C09Length']
 
 
 def gen_defs(spt, salt=0):
